@@ -12,3 +12,5 @@ for name, path, meta in T.mutant_files(pid):
         continue
     r = T.run_mutant(pid, mod, name, path, meta, known_keys=known)
     print(r['name'], r['status'], r.get('keys', r.get('why')))
+    if r['status'] == 'fired' and name.startswith('own:'):
+        T._remember(name, r.get('all_keys', r['keys']))
